@@ -15,6 +15,7 @@ structure DrvSt where
   cancel : Bool := false
   mon : Option Mon := some Mon.init
   tree : Hive.WPG.Tree := []
+  subs : List Hive.WPG.Sub := []
 
 def DrvSt.init : DrvSt := {}
 
@@ -22,7 +23,8 @@ def stepLine (s : DrvSt) (toks : List String) : DrvSt × String :=
   match toks with
   | ["cfg", _, c] => ({ cancel := c == "true", mon := some Mon.init }, "ok")
   | "run" :: _ => (s, "ok")
-  | "group" :: _ => ({ s with tree := [] }, "ok")
+  | "hammer" :: _ => (s, "ok")
+  | "group" :: _ => ({ s with tree := [], subs := [] }, "ok")
   | ["g", op, a] =>
     let parsed : Option Hive.WPG.Op :=
       match op, a.toNat? with
@@ -31,11 +33,29 @@ def stepLine (s : DrvSt) (toks : List String) : DrvSt × String :=
       | "inc", some n => some (.inc n)
       | "dec", some n => some (.dec n)
       | "newgroup", none => if a == "-" then some (.newGroup none) else none
+      | "newpoolsub", some n => some (.newPool n)
       | _, _ => none
     match parsed, op, a.toNat? with
     | some o, _, _ =>
-      if o.ok s.tree then ({ s with tree := Hive.WPG.step s.tree o }, "ok " ++ Hive.Proto.showNatList ((Hive.WPG.step s.tree o).map (·.value)))
+      if o.ok s.tree then
+        let t' := Hive.WPG.step s.tree o
+        -- `newpoolsub`: the pool is created with a user subscriber attached through an option (before the group's own)
+        let subs := Hive.WPG.observe s.tree t' s.subs ++
+          (if op == "newpoolsub" then [{ node := s.tree.length, active := true, stream := [] }] else [])
+        ({ s with tree := t', subs := subs }, "ok " ++ Hive.Proto.showNatList (t'.map (·.value)))
       else (s, "skip")
+    | none, "sub", some n =>
+      if n < s.tree.length then
+        ({ s with subs := s.subs ++ [{ node := n, active := true, stream := [] }] }, s!"ok {s.subs.length}")
+      else (s, "skip")
+    | none, "unsub", some k =>
+      match s.subs[k]? with
+      | some sb => if sb.active then ({ s with subs := s.subs.set k { sb with active := false } }, "ok") else (s, "skip")
+      | none => (s, "skip")
+    | none, "stream", some k =>
+      match s.subs[k]? with
+      | some sb => (s, Hive.WPG.showStream sb.stream)
+      | none => (s, "skip")
     | none, "wait", some g => (s, if Hive.WPG.waitChildrenReturns s.tree g then "returns" else "blocks")
     | _, _, _ => (s, "bad-op")
   | ["quiet"] =>
